@@ -46,12 +46,12 @@ ASSUMPTIONS = ['UTF-8 locale fixed by the harness: the property is about bytes, 
                'inputs for which the in-process reference raises (cdef rejected, unencodable text) carry no claim',
                'no lone surrogates (not representable in the UTF-8 input files)',
                'emit_c_code is deterministic for equal FFI construction steps (C23) with PYTHONHASHSEED fixed']
-BUDGET = {'quick': 400, 'thorough': 24000}
+BUDGET = {'quick': 400, 'thorough': 12000}
 MIN_PER_SHARD = 20
 MAX_SHARDS = 8
 TIME = {'quick': 15, 'thorough': 800}
 # share of cases that carry one subprocess variant
-SUBPROC_SHARE = {'quick': 0.16, 'thorough': 0.5}
+SUBPROC_SHARE = {'quick': 0.16, 'thorough': 0.4}
 
 BINDS = ['direct', 'subclass', 'func', 'lambda', 'object']
 CALLABLE = ('func', 'lambda', 'object')
